@@ -22,8 +22,9 @@ import os
 from .seams import VROOT
 
 
-def grammar(rrel=None, params=()):
-    ref = "[Def:QN]" if not rrel else f"[Def:QN|{rrel}]"
+def grammar(rrel=None, params=(), qn="QN"):
+    """qn: the name of the match rule of the references (any identifier is a legal rule name, also e.g. `sep`)"""
+    ref = f"[Def:{qn}]" if not rrel else f"[Def:{qn}|{rrel}]"
     refc = "[Def:QNC]" if not rrel else f"[Def:QNC|{rrel}]"  # the same names written with '::' (another match rule)
     return f"""
 Model: imports*=Import items*=Item;
@@ -36,7 +37,7 @@ Use: 'use' name=ID ':' refs+={ref}[','] ('one' one={ref})? ('opt' opt={ref})? ('
 Wrap: inner=Inner (e?='end')?;
 Inner: 'w' name=ID;
 Tag: /#\\w+/;
-QN: ID('.'ID)*;
+{qn}: ID('.'ID)*;
 QNC[split='::']: ID('::'ID)*;
 """
 
